@@ -1,7 +1,7 @@
 #!/bin/sh
 # usage: try_seed.sh <ID> [srcdir] [checks...]  -- run the static checks against a scratch copy of /repo/wntr with the seeded patch applied
 id="$1"; src="${2:-/tmp/out_$id}"; shift; [ $# -gt 0 ] && shift
-d="/tmp/seedchk_$id"; rm -rf "$d"; mkdir -p "$d"
+d=$(mktemp -d "/tmp/seedchk_${id}_XXXXXX")
 rsync -a --exclude '__pycache__' --exclude '*.so' --exclude 'tests' /repo/wntr "$d/" 
 ( cd "$d" && patch -p1 -s --fuzz=3 < "$src/patch.diff" ) || { echo "PATCH FAILED for $id"; rm -rf "$d"; exit 3; }
 checks="$*"; [ -z "$checks" ] && checks=$(python3 -c "import json;print(' '.join(c['property_id'] for c in json.load(open('/verif/MANIFEST.json'))['checks']))")
